@@ -361,3 +361,23 @@ type PropMeta struct {
 	Trusted     []string
 	Run         func(r *Run)
 }
+
+// Borrow runs another property's rules on the same tree and records the obligations of one of its
+// rules under a rule id of this property: a clause that two properties share is decided once and
+// reported under both (DESIGN.md §4: "C08.8 = C02.4", "C01.10 = C07.1").
+func (r *Run) Borrow(from func(*Run), fromProp, fromRule, asRule, text string) {
+	tmp := &Run{Prop: fromProp, Tier: r.Tier, W: r.W, config: r.config}
+	from(tmp)
+	r.Rule(asRule, text+" (shared with "+fromRule+")")
+	n := 0
+	for _, o := range tmp.Obls {
+		if o.Rule != fromRule {
+			continue
+		}
+		n++
+		r.add(asRule, o.Construct, o.Pos, o.Status, o.Detail)
+	}
+	if n == 0 {
+		r.Fail(asRule, "instances", "", "the shared rule "+fromRule+" produced no obligations")
+	}
+}
